@@ -362,9 +362,27 @@ impl Prop for C09 {
             let (container, bytes) = wrap(&src, rng, choice);
             Case { src, ids: vec![0], id_mode: "n/a".into(), op: Op::WholeFont { tags }, container, bytes }
         } else {
-            let (src, _) = match self.w.pick_src(cx, rng, [0, 0, 0, 0, 1, 0], None) {
-                Some(s) => s,
-                None => return,
+            let generated = rng.chance(1, 2);
+            let src = if generated {
+                // generated variable TrueType fonts (C12 generator): composites with byte- and word-sized
+                // offsets that vary, empty glyphs, numberOfHMetrics < numGlyphs, avar / HVAR / MVAR
+                let vf = super::c12::c12_gen::gen_vfont(rng, cx.quick());
+                let built = super::c12::c12_gen::build_font(&vf, rng);
+                match Src::from_bytes("generated-variable", &built.bytes, true) {
+                    Some(s) => {
+                        cx.class("source:generated-variable-font");
+                        std::rc::Rc::new(s)
+                    }
+                    None => {
+                        cx.inconclusive("generator:variable-font-not-readable");
+                        return;
+                    }
+                }
+            } else {
+                match self.w.pick_src(cx, rng, [0, 0, 0, 0, 1, 0], None) {
+                    Some((s, _)) => s,
+                    None => return,
+                }
             };
             if src.axes.is_empty() {
                 return;
